@@ -1,0 +1,17 @@
+//go:build verif
+
+package slug
+
+import "archive/tar"
+
+// VerifEntryBoundary is a verification hook (build tag "verif" only). When set,
+// Unpack calls it before each archive entry is processed (header != nil) and
+// once after the last entry, before the deferred directory restore
+// (header == nil). It lets a test observe the destination between entries.
+var VerifEntryBoundary func(dst string, header *tar.Header)
+
+func verifEntryBoundary(dst string, header *tar.Header) {
+	if VerifEntryBoundary != nil {
+		VerifEntryBoundary(dst, header)
+	}
+}
